@@ -78,7 +78,8 @@ PROBE_ODD = (13,)
 NSHARDS_QUICK = 32
 NSHARDS_THOROUGH = 64
 MAX_PER_SIG = 2
-FUNC_CPU_SECONDS = 20
+CASE_CPU_MS = 10           # CPU-time bound of one evaluation (the slowest helper, bignum_smod, needs < 0.1 ms)
+MAX_TIMEOUTS = 64            # after that many in one function its remaining cases are not run (counted)
 
 NARY = ["+", "*", "&", "|", "^"]
 SHIFTS = ["<<", ">>", "a>>"]
@@ -87,7 +88,11 @@ DIVS = ["udiv", "umod", "sdiv", "smod"]
 CMPS = ["==", "<u", "<s", "<=u", "<=s"]
 CNT = ["cntleadzeros", "cnttrailzeros"]
 
-SIGNAMES = {4: "SIGILL", 6: "SIGABRT", 7: "SIGBUS", 8: "SIGFPE", 11: "SIGSEGV", 26: "timeout"}
+SIGNAMES = {4: "SIGILL", 6: "SIGABRT", 7: "SIGBUS", 8: "SIGFPE", 11: "SIGSEGV", 26: "SIGVTALRM (CPU-time bound: run-away loop)"}
+# outcome part of a signature.  "wrong" = the value differs from the reference OR the call hit a memory fault / abort /
+# damaged its caller: with require() compiled out these are manifestations of the same undefined behaviour (negative
+# shift counts, out-of-bounds limb indexes) and which one shows depends on the stack content, so they share a class.
+OUTCOME_OF_SIGNAL = {8: "SIGFPE", 26: "timeout"}
 
 
 def mask(w):
@@ -361,7 +366,7 @@ def depth1(w, quick):
 def contexts(w):
     """contexts sensitive to bits above the width of their operand X (an expression of width w)"""
     def ctx(X):
-        b = I("b", w)
+        b = I("c", w)
         out = [("cond", CD(X, K(1, 8), K(2, 8))),
                (">>", OP(">>", X, K(1, w))) if (w in NATIVE or w > 64) else None,
                ("udiv", OP("udiv", X, K(3, w))) if (w in NATIVE or w > 64) and w >= 2 else None,
@@ -470,9 +475,14 @@ DRIVER_HEAD = r"""
 #include <unistd.h>
 #include <sys/time.h>
 #include <sys/types.h>
+#include <sys/wait.h>
+#include <sys/mman.h>
+#include <sys/prctl.h>
 
 static sigjmp_buf c04_env;
 static volatile sig_atomic_t c04_armed;
+static volatile int c04_idx;
+static FILE *c04_res;
 
 void c04_exit(int code)
 {
@@ -483,7 +493,11 @@ void c04_exit(int code)
 static void c04_sig(int signo)
 {
 	if (c04_armed) siglongjmp(c04_env, signo);
-	_exit(99);
+	if (signo == SIGVTALRM) return;
+	/* a fault outside the protected call: the call damaged its caller's memory */
+	fprintf(c04_res, "\n%d !C%d\n", c04_idx, signo);
+	fflush(c04_res);
+	_exit(97);
 }
 
 static bn_t c04_ld(const uint64_t *in)
@@ -514,65 +528,103 @@ struct c04_desc {
 """
 
 DRIVER_MAIN = r"""
+static void c04_run(const struct c04_desc *d)
+{
+	static uint64_t in[12], out[4];
+	static struct itimerval tv, off;
+	static off_t last, cur;
+	static int i0, i1, i2, idx, timeouts, n0, n1, n2, rc;
+	FILE *res = c04_res;
+
+	tv.it_value.tv_usec = C04_CPU_USEC;
+	n0 = d->nops > 0 ? d->n0 : 1;
+	n1 = d->nops > 1 ? d->n1 : 1;
+	n2 = d->nops > 2 ? d->n2 : 1;
+	idx = 0;
+	timeouts = 0;
+	last = lseek(1, 0, SEEK_CUR);
+	for (i0 = 0; i0 < n0; i0++) for (i1 = 0; i1 < n1; i1++) for (i2 = 0; i2 < n2; i2++, idx++) {
+		if (d->skip && d->skip[idx]) continue;
+		if (timeouts >= C04_MAX_TIMEOUTS) { fprintf(res, "%d !N\n", idx); continue; }
+		memset(in, 0, sizeof(in));
+		if (d->nops > 0) memcpy(in, d->l0[i0], 32);
+		if (d->nops > 1) memcpy(in + 4, d->l1[i1], 32);
+		if (d->nops > 2) memcpy(in + 8, d->l2[i2], 32);
+		out[0] = out[1] = out[2] = out[3] = 0;
+		c04_idx = idx;
+		rc = sigsetjmp(c04_env, 1);
+		if (rc == 0) {
+			setitimer(ITIMER_VIRTUAL, &tv, NULL);
+			c04_armed = 1;
+			d->fn(in, out);
+			c04_armed = 0;
+			setitimer(ITIMER_VIRTUAL, &off, NULL);
+			if (d->wide)
+				fprintf(res, "%d =%llx%016llx%016llx%016llx", idx, (unsigned long long)out[3],
+					(unsigned long long)out[2], (unsigned long long)out[1], (unsigned long long)out[0]);
+			else
+				fprintf(res, "%d =%llx", idx, (unsigned long long)out[0]);
+		} else {
+			c04_armed = 0;
+			setitimer(ITIMER_VIRTUAL, &off, NULL);
+			if (rc >= 1000) fprintf(res, "%d !X%d", idx, rc - 1000);
+			else fprintf(res, "%d !S%d", idx, rc);
+			if (rc == SIGVTALRM) timeouts++;
+		}
+		fflush(stdout);
+		cur = lseek(1, 0, SEEK_CUR);
+		if (cur != last) { fprintf(res, " O%ld", (long)(cur - last)); last = cur; }
+		fputc('\n', res);
+	}
+}
+
 int main(int argc, char **argv)
 {
 	static const int sigs[] = {SIGFPE, SIGSEGV, SIGBUS, SIGILL, SIGABRT, SIGVTALRM};
+	const size_t n = sizeof(c04_table) / sizeof(c04_table[0]);
 	struct sigaction sa;
-	struct itimerval tv, off;
-	uint64_t in[12], out[4];
-	FILE *res;
-	off_t last = 0, cur;
+	volatile size_t *progress;
 	unsigned int s;
-	size_t k;
+	size_t k = 0, j;
 
-	if (argc < 2 || !(res = fopen(argv[1], "w"))) return 98;
+	prctl(PR_SET_PDEATHSIG, SIGKILL);
+	if (argc < 2 || !(c04_res = fopen(argv[1], "a"))) return 98;
+	progress = mmap(NULL, sizeof(*progress), PROT_READ | PROT_WRITE, MAP_SHARED | MAP_ANONYMOUS, -1, 0);
+	if (progress == MAP_FAILED) return 95;
 	memset(&sa, 0, sizeof(sa));
 	sa.sa_handler = c04_sig;
 	sigemptyset(&sa.sa_mask);
-	for (s = 0; s < sizeof(sigs) / sizeof(sigs[0]); s++) sigaction(sigs[s], &sa, NULL);
-	memset(&off, 0, sizeof(off));
-	memset(&tv, 0, sizeof(tv));
-	tv.it_value.tv_sec = C04_CPU_SECONDS;
 
-	for (k = 0; k < sizeof(c04_table) / sizeof(c04_table[0]); k++) {
-		const struct c04_desc *d = &c04_table[k];
-		int i0, i1, i2, idx = 0;
-		int n1 = d->nops > 1 ? d->n1 : 1, n2 = d->nops > 2 ? d->n2 : 1, n0 = d->nops > 0 ? d->n0 : 1;
-		fprintf(res, "F %d\n", d->id);
-		setitimer(ITIMER_VIRTUAL, &tv, NULL);
-		for (i0 = 0; i0 < n0; i0++) for (i1 = 0; i1 < n1; i1++) for (i2 = 0; i2 < n2; i2++, idx++) {
-			int rc;
-			if (d->skip && d->skip[idx]) continue;
-			memset(in, 0, sizeof(in));
-			if (d->nops > 0) memcpy(in, d->l0[i0], 32);
-			if (d->nops > 1) memcpy(in + 4, d->l1[i1], 32);
-			if (d->nops > 2) memcpy(in + 8, d->l2[i2], 32);
-			out[0] = out[1] = out[2] = out[3] = 0;
-			rc = sigsetjmp(c04_env, 1);
-			if (rc == 0) {
-				c04_armed = 1;
-				d->fn(in, out);
-				c04_armed = 0;
-				if (d->wide)
-					fprintf(res, "%d =%llx%016llx%016llx%016llx", idx, (unsigned long long)out[3],
-						(unsigned long long)out[2], (unsigned long long)out[1], (unsigned long long)out[0]);
-				else
-					fprintf(res, "%d =%llx", idx, (unsigned long long)out[0]);
-			} else {
-				c04_armed = 0;
-				if (rc >= 1000) fprintf(res, "%d !X%d", idx, rc - 1000);
-				else fprintf(res, "%d !S%d", idx, rc);
-				if (rc == SIGVTALRM) setitimer(ITIMER_VIRTUAL, &tv, NULL);
+	/* the functions run in a child; when a call damages its caller's memory and the child dies, only the remaining
+	   cases of that function are lost: a new child resumes with the next function */
+	while (k < n) {
+		pid_t pid;
+		int st = 0;
+		fflush(c04_res);
+		fflush(stdout);
+		*progress = k;
+		pid = fork();
+		if (pid < 0) return 96;
+		if (pid == 0) {
+			prctl(PR_SET_PDEATHSIG, SIGKILL);
+			for (s = 0; s < sizeof(sigs) / sizeof(sigs[0]); s++) sigaction(sigs[s], &sa, NULL);
+			for (j = k; j < n; j++) {
+				*progress = j;
+				fprintf(c04_res, "F %d\n", c04_table[j].id);
+				c04_run(&c04_table[j]);
 			}
+			fflush(c04_res);
 			fflush(stdout);
-			cur = lseek(1, 0, SEEK_CUR);
-			if (cur != last) { fprintf(res, " O%ld", (long)(cur - last)); last = cur; }
-			fputc('\n', res);
+			_exit(0);
 		}
-		setitimer(ITIMER_VIRTUAL, &off, NULL);
+		while (waitpid(pid, &st, 0) < 0) ;
+		if (WIFEXITED(st) && WEXITSTATUS(st) == 0) break;
+		if (!(WIFEXITED(st) && WEXITSTATUS(st) == 97))
+			fprintf(c04_res, "\nD %d %d\n", c04_table[*progress].id, WIFSIGNALED(st) ? WTERMSIG(st) : 1000 + WEXITSTATUS(st));
+		k = *progress + 1;
 	}
-	fprintf(res, "END\n");
-	fclose(res);
+	fprintf(c04_res, "END\n");
+	fclose(c04_res);
 	return 0;
 }
 """
@@ -611,7 +663,7 @@ def gen_function(k, f, ctext):
 
 def gen_file(shadow, items):
     """items: list of (k, f, ctext, skip or None). Returns C source."""
-    src = [include_block(shadow), "#define C04_CPU_SECONDS %d" % FUNC_CPU_SECONDS, DRIVER_HEAD]
+    src = [include_block(shadow), "#define C04_CPU_USEC %d\n#define C04_MAX_TIMEOUTS %d" % (CASE_CPU_MS * 1000, MAX_TIMEOUTS), DRIVER_HEAD]
     tables = {}
     table_src = []
 
@@ -741,33 +793,48 @@ def compile_items(shadow, rt_objs, items, workdir, name):
 
 
 def run_exe(exe, workdir):
-    """Run one harness; returns ({k: {idx: (kind, value, stdout_bytes)}}, stdout size, completed)"""
+    """Run one harness; returns ({k: {idx: (kind, value, stdout_bytes)}}, stdout size, completed, return code)"""
     res = exe + ".res"
     so = exe + ".stdout"
     with open(so, "wb") as fo:
-        p = subprocess.run([exe, res], stdin=subprocess.DEVNULL, stdout=fo, stderr=subprocess.DEVNULL)
+        p = subprocess.run([exe, res], stdin=subprocess.DEVNULL, stdout=fo, stderr=subprocess.DEVNULL, timeout=3600)
     out = {}
     cur = None
     done = False
     if os.path.exists(res):
-        with open(res) as fd:
+        with open(res, errors="replace") as fd:
             for line in fd:
-                if line[0] == "F":
-                    cur = out.setdefault(int(line[2:]), {})
-                    continue
-                if line.startswith("END"):
-                    done = True
-                    continue
                 parts = line.split()
-                idx = int(parts[0])
-                r = parts[1]
-                so_bytes = int(parts[2][1:]) if len(parts) > 2 else 0
-                if r[0] == "=":
-                    cur[idx] = ("v", int(r[1:], 16), so_bytes)
-                elif r[1] == "S":
-                    cur[idx] = ("sig", int(r[2:]), so_bytes)
-                else:
-                    cur[idx] = ("exit", int(r[2:]), so_bytes)
+                if not parts:
+                    continue
+                try:
+                    if parts[0] == "F":
+                        cur = out.setdefault(int(parts[1]), {})
+                        continue
+                    if parts[0] == "END":
+                        done = True
+                        continue
+                    if parts[0] == "D":
+                        out.setdefault(int(parts[1]), {})[-1] = ("died", int(parts[2]), 0)
+                        continue
+                    idx = int(parts[0])
+                    r = parts[1]
+                    so_bytes = int(parts[2][1:]) if len(parts) > 2 else 0
+                    if r[0] == "=":
+                        cur[idx] = ("v", int(r[1:], 16), so_bytes)
+                    elif r[1] == "N":
+                        cur[idx] = ("notrun", 0, so_bytes)
+                    elif r[1] == "C":
+                        prev = cur.get(idx)
+                        cur[idx] = ("corrupt", int(r[2:]), prev[2] if prev else 0)
+                        cur[-2] = ("cidx", idx, 0)
+                    elif r[1] == "S":
+                        cur[idx] = ("sig", int(r[2:]), so_bytes)
+                    else:
+                        cur[idx] = ("exit", int(r[2:]), so_bytes)
+                except (ValueError, IndexError, TypeError):
+                    if cur is not None:
+                        cur[-1] = ("died", -1, 0)      # torn line: the child died while writing
     return out, os.path.getsize(so), done and p.returncode == 0, p.returncode
 
 
@@ -832,11 +899,13 @@ def evaluate(funcs, shadow, rt_objs, workdir, name):
     Returns dict(violations=[(record, inner_key)], counters...)."""
     import miasm.expression.expression as E
     stats = {"functions": 0, "evaluations": 0, "nontrivial": 0, "undefined_skipped": 0, "not_accepted": {}, "raises": {},
-             "per_op": {}, "compile_rejected": 0, "signals": 0, "exits": 0, "stdout_cases": 0, "outcomes": set(),
+             "per_op": {}, "compile_rejected": 0, "not_run_after_timeouts": 0, "not_run_after_crash": 0, "signals": 0, "exits": 0, "stdout_cases": 0, "outcomes": set(),
              "probe": {}, "faulty": [], "samples": []}
     vio = []
     items = []
     meta = {}
+    import time
+    t0 = time.time()
     for k, f in enumerate(funcs):
         expr, ctext, err = translate(f)
         op_key = "%s|%s" % (f["tag"], f["wc"])
@@ -865,7 +934,9 @@ def evaluate(funcs, shadow, rt_objs, workdir, name):
         meta[k] = (f, expr, ids, tuples, exp, ctext)
         items.append((k, f, ctext, skip if any(skip) else None))
 
+    t1 = time.time()
     exes, kept, rejected = compile_items(shadow, rt_objs, items, workdir, name)
+    t2 = time.time()
 
     def add(f, sig, what, case, inner):
         vio.append({"v": violation(sig, what, case), "inner": spec_str(inner) if inner else None, "key": f["key"],
@@ -887,6 +958,8 @@ def evaluate(funcs, shadow, rt_objs, workdir, name):
             # the driver died or wrote to stdout outside a case: harness-level failure, never silent
             raise RuntimeError("harness %s: rc=%s completed=%s stdout=%d bytes unattributed" % (exe, rc, ok, so_size))
 
+    t3 = time.time()
+    stats["seconds"] = {"translate+reference": t1 - t0, "compile": t2 - t1, "run": t3 - t2}
     for k, f, ctext, skip in kept:
         f, expr, ids, tuples, exp, ctext = meta[k]
         res = results.get(k)
@@ -896,27 +969,45 @@ def evaluate(funcs, shadow, rt_objs, workdir, name):
         po = stats["per_op"].setdefault(f["tag"].split("(")[0] if f["inner"] is None else "nested", [0, 0])
         po[0] += 1
         per_sig = {}
+        died_seen = False
         for idx, t in enumerate(tuples):
             if exp[idx] is None:
                 stats["undefined_skipped"] += 1
                 continue
             got = res.get(idx)
             if got is None:
-                raise RuntimeError("case %d of %s missing from the result file" % (idx, f["key"]))
+                # the child of this function died: the first missing case is where (unless the driver said which one)
+                if -2 in res or died_seen:
+                    stats["not_run_after_crash"] += 1
+                    continue
+                if -1 not in res:
+                    raise RuntimeError("case %d of %s missing from the result file" % (idx, f["key"]))
+                died_seen = True
+                got = ("died", res[-1][1], 0)
+            kind, val, so_bytes = got
+            if kind == "notrun":
+                stats["not_run_after_timeouts"] += 1
+                continue
             stats["evaluations"] += 1
             po[1] += 1
             if any(t):
                 stats["nontrivial"] += 1
-            kind, val, so_bytes = got
             bad = []
             if kind == "sig":
                 stats["signals"] += 1
-                bad.append((SIGNAMES.get(val, "signal%d" % val), "the call raised %s" % SIGNAMES.get(val, "signal %d" % val)))
+                bad.append((OUTCOME_OF_SIGNAL.get(val, "wrong"), "the call raised %s" % SIGNAMES.get(val, "signal %d" % val)))
+            elif kind == "corrupt":
+                stats["signals"] += 1
+                bad.append(("wrong", "the call returned but damaged its caller's memory (the driver got %s afterwards)"
+                            % SIGNAMES.get(val, "signal %d" % val)))
+            elif kind == "died":
+                stats["signals"] += 1
+                bad.append(("wrong", "the evaluating process died (%s)" % SIGNAMES.get(val, "status %d" % val)))
             elif kind == "exit":
                 stats["exits"] += 1
                 bad.append(("exit", "the runtime called exit(%d)" % val))
             elif val != exp[idx]:
-                bad.append(("wrong-value", "C value 0x%x, reference 0x%x" % (val, exp[idx])))
+                bad.append(("wrong", "C value 0x%x, reference 0x%x" % (val, exp[idx])))
             if so_bytes:
                 stats["stdout_cases"] += 1
                 bad.append(("stdout", "%d byte(s) written to stdout" % so_bytes))
@@ -974,8 +1065,8 @@ def run(ctx):
     shards = [(funcs[i::n], shadow, rt, "s%d" % i) for i in range(n)]
     res = ctx.pmap(_worker, shards)
 
-    tot = {"functions": 0, "evaluations": 0, "nontrivial": 0, "undefined_skipped": 0, "compile_rejected": 0, "signals": 0,
-           "exits": 0, "stdout_cases": 0}
+    tot = {"functions": 0, "evaluations": 0, "nontrivial": 0, "undefined_skipped": 0, "compile_rejected": 0, "not_run_after_timeouts": 0, "not_run_after_crash": 0, "signals": 0,
+           "exits": 0, "stdout_cases": 0, "not_run_after_timeouts": 0, "not_run_after_crash": 0}
     per_op = {}
     not_acc = {}
     raises = {}
@@ -983,7 +1074,10 @@ def run(ctx):
     faulty = set()
     samples = []
     allv = []
+    secs = {"translate+reference": [], "compile": [], "run": []}
     for vio, st in res:
+        for key in secs:
+            secs[key].append(round(st["seconds"][key], 1))
         for k in tot:
             tot[k] += st[k]
         for op, (nf, ne) in st["per_op"].items():
@@ -1031,6 +1125,8 @@ def run(ctx):
         "nested_violations_skipped_inner_faulty": nested_skipped,
         "odd_width_per_type_probe": probe_info,
         "samples": samples[:6],
+        "shard_seconds_max": {key: max(v) for key, v in secs.items()},
+        "shard_seconds_sum": {key: round(sum(v), 1) for key, v in secs.items()},
         "exhaustive": True,
         "bounds": {"native": list(NATIVE), "odd": list(ODD_QUICK if quick else ODD_THOROUGH),
                    "bn": list(BN_QUICK if quick else BN_THOROUGH), "nested": list(NESTED_QUICK if quick else NESTED_THOROUGH),
